@@ -1,4 +1,5 @@
 import MoqModel.Names
+import MoqModel.Preds
 /-
   C13 — call-record field names follow the parameter names predictably.
 -/
@@ -45,5 +46,59 @@ theorem c13_exported_spec (s : Str) : exported s = exportedSpec s := by
     by_cases h : Str.upper (c :: cs) ∈ initialisms
     · simp only [find_eq_self h]; simp [h]
     · simp only [find_none_of_not_mem h]; simp [h]
+
+/-- the initialism table of the current source is golint's list of 38 (regenerated, so removing or
+    misspelling an entry breaks this theorem and names the table) -/
+theorem c13_table :
+    initialisms = [s%"ACL", s%"API", s%"ASCII", s%"CPU", s%"CSS", s%"DNS", s%"EOF", s%"GUID", s%"HTML", s%"HTTP",
+      s%"HTTPS", s%"ID", s%"IP", s%"JSON", s%"LHS", s%"QPS", s%"RAM", s%"RHS", s%"RPC", s%"SLA", s%"SMTP", s%"SQL",
+      s%"SSH", s%"TCP", s%"TLS", s%"TTL", s%"UDP", s%"UI", s%"UID", s%"UUID", s%"URI", s%"URL", s%"UTF8", s%"VM",
+      s%"XML", s%"XMPP", s%"XSRF", s%"XSS"] := by
+  decide
+
+/-- a parameter name written in the interface is kept verbatim (plus the `Out` suffix for
+    results); only collisions handled later by `AddVar` can change it -/
+theorem c13_user_name_verbatim (n : Str) (t : Ty) (sfx : Str) (h1 : n ≠ []) (h2 : n ≠ s%"_") :
+    varName n t sfx = some (n ++ sfx) := by
+  simp [varName, h1, h2]
+
+/-- unnamed (or blank) parameters: the type-derived default, `MoqParam` appended when that is a
+    reserved word -/
+theorem c13_unnamed_rule (n : Str) (t : Ty) (sfx : Str) (h : n = [] ∨ n = s%"_") :
+    varName n t sfx = (varNameForType t).map fun g =>
+      if g ++ sfx ∈ reservedNames then g ++ sfx ++ moqParamSuffix else g ++ sfx := by
+  rcases h with h | h <;> subst h <;> simp [varName]
+
+/-- the fixed rule for type-derived names, constructor by constructor -/
+theorem c13_type_rule (p : PkgRef) (o : Str) (targs : List Ty) (u : Bool) (e k v : Ty) (n : Nat) (d : ChanDir) :
+    varNameForType (.basic s%"string") = some s%"s" ∧
+    varNameForType (.basic s%"int") = some s%"n" ∧ varNameForType (.basic s%"int64") = some s%"n" ∧
+    varNameForType (.basic s%"float64") = some s%"f" ∧ varNameForType (.basic s%"bool") = some s%"b" ∧
+    varNameForType (.basic s%"uint") = some s%"v" ∧
+    varNameForType (.named ⟨[], []⟩ s%"error" [] false) = some s%"err" ∧
+    varNameForType (.ptr e) = varNameForType e ∧
+    varNameForType (.sig [] [] [] [] false) = some s%"fn" ∧
+    varNameForType (.struct [] [] [] []) = some s%"val" ∧
+    varNameForType (.iface [] [] [] false) = some s%"ifaceVal" ∧
+    varNameForType (.tparam o) = some s%"v" ∧
+    varNameForType (.slice (.basic s%"int")) = some s%"ints" ∧
+    varNameForType (.map (.basic s%"string") (.basic s%"int")) = some s%"stringToInt" ∧
+    varNameForType (.chan d (.basic s%"int")) = some s%"intCh" ∧
+    varNameForType (.named p s%"MyType" targs u) = some s%"myType" ∧
+    varNameForType (.slice (.named p s%"MyType" targs u)) = some s%"myTypes" ∧
+    varNameForType (.named p s%"lower" targs u) = some s%"lowerMoqParam" := by
+  refine ⟨by decide, by decide, by decide, by decide, by decide, by decide, by decide, rfl, rfl, rfl, rfl, rfl,
+    by decide, by decide, ?_, ?_, ?_, ?_⟩
+  · cases d <;> decide
+  · simp [varNameForType, deCapitalise]; decide
+  · simp [varNameForType, deCapitalise]; decide
+  · simp [varNameForType, deCapitalise]; decide
+
+/-- the reserved list covers the Go keywords, the basic type names, and the two locals of the
+    generated method -/
+theorem c13_reserved_covers :
+    (goKeywords.all fun k => k ∈ reservedNames) = true ∧ (basicTypeNames.all fun k => k ∈ reservedNames) = true ∧
+    s%"mock" ∈ reservedNames ∧ s%"callInfo" ∈ reservedNames := by
+  refine ⟨by decide, by decide, by decide, by decide⟩
 
 end Moq
